@@ -65,6 +65,9 @@ func (m c12) Run(ctx *core.Ctx) {
 			switch r.IntN(12) {
 			case 0, 1, 2, 3:
 				op = genOp(r, histKinds{sp: true})
+				if op.Name == "sp.rewrite" {
+					op.Args = op.Args[:2]
+				}
 				if op.Name == "sp.iterate" {
 					op = sOp("sp.append", gen.SPName(r), gen.SPString(r))
 				}
@@ -214,6 +217,13 @@ func (c12) Exec(ctx *core.Ctx, cs *core.Case) {
 				pan = ctx.Call(256, func() { h.Sort() })
 			case "sp.sortabs":
 				pan = ctx.Call(256, func() { h.SortAbsolute() })
+			case "sp.rewrite":
+				pan = ctx.Call(opBytes(op)+len(u.Query())+256, func() {
+					h.Iterate(func(p *url.NameValuePair) {
+						p.Value += op.Arg(0)
+						p.Name = op.Arg(1) + p.Name
+					})
+				})
 			}
 			if pan != nil {
 				ctx.Violate("SearchParams mutation panics", "", pan.String(), where)
@@ -221,7 +231,7 @@ func (c12) Exec(ctx *core.Ctx, cs *core.Case) {
 			}
 			interesting = true
 			ctx.Count("sp_mutations")
-			if len(op.Args) > 1 {
+			if len(op.Args) > 1 && op.Name != "sp.rewrite" {
 				seenNames[op.Arg(0)] = true
 			}
 			if !check {
